@@ -35,4 +35,11 @@ EditsC11x == EditsC11 \cup {D2m}
 \* status machine / reconnect / back-off: failures in a row, with the timers allowed to fire
 MixesStatus == {<<"flushw", "pause", "resume">>, <<"resume", "flushw", "restart">>, <<"flushw", "flushn", "resume">>}
 MixRec == {<<"flushw", "pause">>}
+\* persistence faults: the same command twice (fail, then retry), then the manager restarts
+MixesPersist == {<<"pause", "pause", "restart">>, <<"resume", "resume", "restart">>, <<"reset", "reset", "restart">>,
+                 <<"terminate", "terminate", "restart">>, <<"pause", "resume", "restart">>, <<"flushw", "flushw", "restart">>}
+MixesPersistQ == {<<"pause", "pause", "restart">>, <<"reset", "terminate", "restart">>}
+MixesPersist2 == {<<x, y, "restart">> : x, y \in {"pause", "resume", "reset", "terminate"}}
+MixesPersistSim == {<<x, y, "restart">> : x, y \in {"pause", "resume", "reset", "terminate", "flushw"}}
+                   \cup {<<x, y, "restart", z>> : x, y, z \in {"pause", "resume", "flushw"}}
 ====
